@@ -44,16 +44,16 @@ theorem accepted_in_grammar (c : Cfg) (hv : c.valid = true) (ms : List Msg)
     NPN; TLS 1.3 client after a HelloRetryRequest with compatibility CCS and a coalesced flight) -/
 example : accepts { role := .server, ver := .tls, kx := .ecdhe, reqCert := true, clientCert := true,
                     tickets := false, npn := true, hrr := false, resume := .none, compCert := false,
-                    hb := true, compat := false }
-    [⟨.client_hello, 0, false⟩, ⟨.certificate, 0, false⟩, ⟨.client_key_exchange, 0, false⟩,
-     ⟨.certificate_verify, 0, false⟩, ⟨.ccs, 0, false⟩, ⟨.next_protocol, 1, false⟩,
-     ⟨.finished, 1, false⟩] = true := by decide
+                    hb := true, compat := false, keypair := false }
+    [⟨.client_hello, 0, false, .whole⟩, ⟨.certificate, 0, false, .whole⟩, ⟨.client_key_exchange, 0, false, .whole⟩,
+     ⟨.certificate_verify, 0, false, .whole⟩, ⟨.ccs, 0, false, .whole⟩, ⟨.next_protocol, 1, false, .whole⟩,
+     ⟨.finished, 1, false, .whole⟩] = true := by decide
 
 example : accepts { role := .client, ver := .tls13, kx := .ecdhe, reqCert := false, clientCert := false,
                     tickets := false, npn := false, hrr := true, resume := .none, compCert := true,
-                    hb := true, compat := true }
-    [⟨.hrr, 0, false⟩, ⟨.ccs, 0, false⟩, ⟨.server_hello, 0, false⟩, ⟨.encrypted_extensions, 1, true⟩,
-     ⟨.compressed_certificate, 1, true⟩, ⟨.certificate_verify, 1, true⟩, ⟨.finished, 1, false⟩] = true := by
+                    hb := true, compat := true, keypair := false }
+    [⟨.hrr, 0, false, .whole⟩, ⟨.ccs, 0, false, .whole⟩, ⟨.server_hello, 0, false, .whole⟩, ⟨.encrypted_extensions, 1, true, .whole⟩,
+     ⟨.compressed_certificate, 1, true, .whole⟩, ⟨.certificate_verify, 1, true, .whole⟩, ⟨.finished, 1, false, .whole⟩] = true := by
   decide
 
 /-! ### 2. regression theorems for the order defects found with this model
@@ -62,18 +62,18 @@ example : accepts { role := .client, ver := .tls13, kx := .ecdhe, reqCert := fal
 
 def tls12Server : Cfg :=
   { role := .server, ver := .tls, kx := .ecdhe, reqCert := false, clientCert := false, tickets := false,
-    npn := false, hrr := false, resume := .none, compCert := false, hb := true, compat := false }
+    npn := false, hrr := false, resume := .none, compCert := false, hb := true, compat := false, keypair := false }
 
 def tls12Client (tickets : Bool) : Cfg :=
   { role := .client, ver := .tls, kx := .ecdhe, reqCert := false, clientCert := false, tickets := tickets,
-    npn := false, hrr := false, resume := .none, compCert := false, hb := true, compat := false }
+    npn := false, hrr := false, resume := .none, compCert := false, hb := true, compat := false, keypair := false }
 
 /-- a server no longer takes a NewSessionTicket from the client before ChangeCipherSpec
     (`_getFinished` was shared by both roles): fatal `unexpected_message` at that message -/
 theorem server_rejects_client_new_session_ticket :
     let r := run tls12Server (start tls12Server)
-      [⟨.client_hello, 0, false⟩, ⟨.client_key_exchange, 0, false⟩, ⟨.new_session_ticket, 0, false⟩,
-       ⟨.ccs, 0, false⟩, ⟨.finished, 1, false⟩]
+      [⟨.client_hello, 0, false, .whole⟩, ⟨.client_key_exchange, 0, false, .whole⟩, ⟨.new_session_ticket, 0, false, .whole⟩,
+       ⟨.ccs, 0, false, .whole⟩, ⟨.finished, 1, false, .whole⟩]
     r.st = .dead ∧ r.alert = some .unexpected_message ∧ r.acc = 2 ∧ r.hsDone = false := by
   decide
 
@@ -81,48 +81,50 @@ theorem server_rejects_client_new_session_ticket :
     `no_renegotiation` warning (the renegotiation branch of `_getMsg` needs `not self.closed`) -/
 theorem server_rejects_client_hello_before_ccs :
     let r := run tls12Server (start tls12Server)
-      [⟨.client_hello, 0, false⟩, ⟨.client_key_exchange, 0, false⟩, ⟨.client_hello, 0, false⟩,
-       ⟨.ccs, 0, false⟩, ⟨.finished, 1, false⟩]
+      [⟨.client_hello, 0, false, .whole⟩, ⟨.client_key_exchange, 0, false, .whole⟩, ⟨.client_hello, 0, false, .whole⟩,
+       ⟨.ccs, 0, false, .whole⟩, ⟨.finished, 1, false, .whole⟩]
     r.st = .dead ∧ r.alert = some .unexpected_message ∧ r.warns = 0 ∧ r.hsDone = false := by
   decide
 
 /-- a client takes a NewSessionTicket exactly when the ServerHello announced it (RFC 5077 §3.3) -/
 theorem client_rejects_unnegotiated_new_session_ticket :
     accepts (tls12Client false)
-      [⟨.server_hello, 0, false⟩, ⟨.certificate, 0, false⟩, ⟨.server_key_exchange, 0, false⟩,
-       ⟨.server_hello_done, 0, false⟩, ⟨.new_session_ticket, 0, false⟩, ⟨.ccs, 0, false⟩,
-       ⟨.finished, 1, false⟩] = false := by decide
+      [⟨.server_hello, 0, false, .whole⟩, ⟨.certificate, 0, false, .whole⟩, ⟨.server_key_exchange, 0, false, .whole⟩,
+       ⟨.server_hello_done, 0, false, .whole⟩, ⟨.new_session_ticket, 0, false, .whole⟩, ⟨.ccs, 0, false, .whole⟩,
+       ⟨.finished, 1, false, .whole⟩] = false := by decide
 
 theorem client_requires_negotiated_new_session_ticket :
     accepts (tls12Client true)
-      [⟨.server_hello, 0, false⟩, ⟨.certificate, 0, false⟩, ⟨.server_key_exchange, 0, false⟩,
-       ⟨.server_hello_done, 0, false⟩, ⟨.ccs, 0, false⟩, ⟨.finished, 1, false⟩] = false ∧
+      [⟨.server_hello, 0, false, .whole⟩, ⟨.certificate, 0, false, .whole⟩, ⟨.server_key_exchange, 0, false, .whole⟩,
+       ⟨.server_hello_done, 0, false, .whole⟩, ⟨.ccs, 0, false, .whole⟩, ⟨.finished, 1, false, .whole⟩] = false ∧
     accepts (tls12Client true)
-      [⟨.server_hello, 0, false⟩, ⟨.certificate, 0, false⟩, ⟨.server_key_exchange, 0, false⟩,
-       ⟨.server_hello_done, 0, false⟩, ⟨.new_session_ticket, 0, false⟩, ⟨.ccs, 0, false⟩,
-       ⟨.finished, 1, false⟩] = true := by decide
+      [⟨.server_hello, 0, false, .whole⟩, ⟨.certificate, 0, false, .whole⟩, ⟨.server_key_exchange, 0, false, .whole⟩,
+       ⟨.server_hello_done, 0, false, .whole⟩, ⟨.new_session_ticket, 0, false, .whole⟩, ⟨.ccs, 0, false, .whole⟩,
+       ⟨.finished, 1, false, .whole⟩] = true := by decide
 
 /-! ### 3. a deviation aborts before any application data -/
 
-/-- From every position of every handshake, for every incoming message (any kind, any key epoch,
-    any coalescing), `_getMsg` and the flow do one of: accept it in order (`next`), drop one of the
-    transparent records (`ignore`: TLS 1.3 compatibility CCS, negotiated heartbeat), or end the
-    connection — with a fatal alert of ours (`abort`, or `acceptAbort` when the flow rejects what
-    `_getMsg` handed out), or because the message itself is an alert from the peer.  Nothing is
-    delivered to the caller, nothing is processed as a post-handshake message, and a renegotiation
-    warning is never the answer. -/
-theorem deviation_aborts_before_data (c : Cfg) (s : St) (ep n : Nat) (m : Msg)
-    (hs : s ≠ .done) (hd : s ≠ .dead) :
-    (∃ s' b, step c s ep n m = .next s' b) ∨ step c s ep n m = .ignore ∨
-    (∃ a, step c s ep n m = .abort a) ∨ (∃ a, step c s ep n m = .acceptAbort a) ∨
-    ((step c s ep n m = .peerClosed ∨ step c s ep n m = .acceptClosed) ∧ m.kind.isAlert = true) := by
-  rcases step_cases c s ep n m with h | ⟨a, h⟩ | ⟨a, h, _⟩
+/-- From every position of every handshake, for every incoming piece (any kind, any key epoch, any
+    coalescing or fragmentation), record layer, defragmenter, `_getMsg` and the flow do one of:
+    accept the message in order (`next`), drop one of the transparent records (`ignore`: TLS 1.3
+    compatibility CCS, negotiated heartbeat), keep the head of a fragmented handshake message in
+    the defragmenter (`buffer`: nothing is handed out yet), or end the connection — with a fatal
+    alert of ours (`abort`, or `acceptAbort` when the flow rejects what `_getMsg` handed out), or
+    because the message itself is an alert from the peer.  Nothing is delivered to the caller,
+    nothing is processed as a post-handshake message, and a renegotiation warning is never the
+    answer. -/
+theorem deviation_aborts_before_data (c : Cfg) (r : Run) (m : Msg)
+    (hs : r.st.isPost = false) (hd : r.st ≠ .dead) :
+    (∃ s' b, step c r m = .next s' b) ∨ step c r m = .ignore ∨ step c r m = .buffer m.kind ∨
+    (∃ a, step c r m = .abort a) ∨ (∃ a, step c r m = .acceptAbort a) ∨
+    ((step c r m = .peerClosed ∨ step c r m = .acceptClosed) ∧ m.kind.isAlert = true) := by
+  rcases step_cases c r m with h | ⟨a, h⟩ | ⟨a, h, _⟩ | h | ⟨h, _⟩
   · rw [h]
-    have hk : stepK0 c s m.kind = (stepHs c s m.kind).toOut := by
-      cases s <;> first | rfl | exact absurd rfl hs | exact absurd rfl hd
+    have hk : stepK0 c r.st r.outstanding m.kind = (stepHs c r.st m.kind).toOut := by
+      revert hs hd; cases r.st <;> simp [St.isPost, stepK0]
     rw [hk]
     unfold stepHs
-    by_cases h1 : (m.kind == MsgKind.ccs && v13Active c s && expectsHandshake c s) = true
+    by_cases h1 : (m.kind == MsgKind.ccs && v13Active c r.st && expectsHandshake c r.st) = true
     · simp [h1, HsOut.toOut]
     · simp only [h1]
       by_cases h2 : m.kind.isAlert = true
@@ -132,22 +134,34 @@ theorem deviation_aborts_before_data (c : Cfg) (s : St) (ep n : Nat) (m : Msg)
       · simp only [h2]
         repeat' split
         all_goals simp [HsOut.toOut]
-  · exact Or.inr (Or.inr (Or.inl ⟨a, h⟩))
   · exact Or.inr (Or.inr (Or.inr (Or.inl ⟨a, h⟩)))
+  · exact Or.inr (Or.inr (Or.inr (Or.inr (Or.inl ⟨a, h⟩))))
+  · exact Or.inr (Or.inr (Or.inl h))
+  · exact Or.inr (Or.inr (Or.inr (Or.inr (Or.inl ⟨_, h⟩))))
 
 /-- application data is never enabled before completion: always a fatal alert -/
-theorem app_data_never_enabled_before_completion (c : Cfg) (s : St) (ep n : Nat) (m : Msg)
-    (hk : m.kind = .app_data) (hs : s ≠ .done) (hd : s ≠ .dead) :
-    ∃ a, step c s ep n m = .abort a := by
-  rcases step_cases c s ep n m with h | ⟨a, h⟩ | ⟨a, _, hf⟩
+theorem app_data_never_enabled_before_completion (c : Cfg) (r : Run) (m : Msg)
+    (hk : m.kind = .app_data) (hs : r.st.isPost = false) (hd : r.st ≠ .dead) :
+    ∃ a, step c r m = .abort a := by
+  rcases step_cases c r m with h | ⟨a, h⟩ | ⟨a, _, hf⟩ | h | ⟨_, hc⟩
   · refine ⟨.unexpected_message, ?_⟩
     rw [h]
-    have hk0 : stepK0 c s m.kind = (stepHs c s m.kind).toOut := by
-      cases s <;> first | rfl | exact absurd rfl hs | exact absurd rfl hd
+    have hk0 : stepK0 c r.st r.outstanding m.kind = (stepHs c r.st m.kind).toOut := by
+      revert hs hd; cases r.st <;> simp [St.isPost, stepK0]
     rw [hk0, hk]
     simp [stepHs, MsgKind.isAlert, HsOut.toOut]
   · exact ⟨a, h⟩
   · rw [hk] at hf; simp [firstHello] at hf
+  · -- an application-data record is never buffered as a handshake fragment
+    exfalso
+    rcases step_shape c r m with ⟨p, hs', _⟩ | ⟨_, hh⟩ | ⟨a, hs'⟩ | ⟨hs', _, _⟩
+    · rw [hs'] at h
+      have := (stepK_hs c r.st r.outstanding m.kind p hs).2.2.2.2 m.kind
+      exact this h
+    · simp [Msg.isHead, hk, MsgKind.isHandshake] at hh
+    · rw [hs'] at h; cases h
+    · rw [hs'] at h; cases h
+  · rw [hk] at hc; cases hc
 
 /-- run level: whatever is sent to an endpoint, as long as it has not completed the handshake it
     has delivered no application data; a fatal alert of ours always means the connection is dead
@@ -162,8 +176,7 @@ theorem no_data_before_completion (c : Cfg) (ms : List Msg) :
     connection and zero delivered bytes, whatever follows -/
 theorem first_deviation_is_final (c : Cfg) (pre post : List Msg) (m : Msg) (a : Alert)
     (hpre : (run c (start c) pre).hsDone = false) (hlive : (run c (start c) pre).st ≠ .dead)
-    (hdev : step c (run c (start c) pre).st (run c (start c) pre).epoch (run c (start c) pre).recsInEpoch m = .abort a ∨
-            step c (run c (start c) pre).st (run c (start c) pre).epoch (run c (start c) pre).recsInEpoch m = .acceptAbort a) :
+    (hdev : step c (run c (start c) pre) m = .abort a ∨ step c (run c (start c) pre) m = .acceptAbort a) :
     let r := run c (start c) (pre ++ m :: post)
     r.st = .dead ∧ r.alert = some a ∧ r.closed = true ∧ r.delivered = 0 ∧ r.hsDone = false := by
   have hinv := inv_run c pre (start c) (inv_start c)
@@ -172,7 +185,7 @@ theorem first_deviation_is_final (c : Cfg) (pre post : List Msg) (m : Msg) (a : 
     simp only [run, List.foldl_append, List.foldl_cons] at hr0 ⊢
     rw [hr0]
   have hnd : (r0.st == St.dead) = false := by simpa using hlive
-  obtain ⟨f1, f2, f3, _, _, _, _, _, _⟩ := countRecord_fields c r0 m
+  obtain ⟨_, f2, f3, _, _, _, _, _, _, _⟩ := pre_fields c r0 m
   have hfeed : (feed c r0 m).st = .dead ∧ (feed c r0 m).alert = some a ∧ (feed c r0 m).closed = true ∧
       (feed c r0 m).delivered = 0 ∧ (feed c r0 m).hsDone = false := by
     unfold feed
@@ -185,52 +198,58 @@ theorem first_deviation_is_final (c : Cfg) (pre post : List Msg) (m : Msg) (a : 
 /-! ### 4. renegotiation is refused -/
 
 /-- After completion no input re-enters the handshake automaton: for every further sequence of
-    messages the position stays `done` or becomes `dead`, and the completion record is never
+    pieces the position stays a post-handshake one (`readAsync`, inside a post-handshake
+    authentication flight, close-wait) or becomes `dead`, and the completion record is never
     rewritten (no second `_handshakeDone`). -/
 theorem renegotiation_refused (c : Cfg) (ms more : List Msg)
     (h : (run c (start c) ms).st = .done) :
     let r := run c (start c) (ms ++ more)
-    (r.st = .done ∨ r.st = .dead) ∧ r.accAtDone = (run c (start c) ms).accAtDone ∧ r.hsDone = true := by
+    (r.st.isPost = true ∨ r.st = .dead) ∧ r.accAtDone = (run c (start c) ms).accAtDone ∧ r.hsDone = true := by
   have hinv := inv_run c ms (start c) (inv_start c)
   have hsplit : run c (start c) (ms ++ more) = run c (run c (start c) ms) more := by
     simp [run, List.foldl_append]
+  have hp : (run c (start c) ms).st.isPost = true := by rw [h]; rfl
   simp only []
   rw [hsplit]
-  obtain ⟨h1, h2, h3⟩ := done_stays c more _ h
-  exact ⟨h1, h2, by rw [h3]; exact (hinv.atDone h).1⟩
+  exact post_stays c more _ hp (hinv.atDone hp).1
 
 /-- the answer to the renegotiation attempt itself (ClientHello to a server, HelloRequest to a
     client) on an established connection: a `no_renegotiation` warning and the message is dropped
     (≤ TLS 1.2), or a fatal `unexpected_message` (TLS 1.3) — never a new handshake -/
-theorem renegotiation_attempt_answer (c : Cfg) (ep n : Nat) (m : Msg)
+theorem renegotiation_attempt_answer (c : Cfg) (r : Run) (m : Msg)
+    (hst : r.st = .done) (hpend : r.pending = none) (hpart : m.part = .whole)
     (hk : (c.role = .server ∧ m.kind = .client_hello) ∨ (c.role = .client ∧ m.kind = .hello_request))
-    (he : m.epoch = ep) :
-    step c .done ep n m = (if c.isTls13 then .abort .unexpected_message else .warn) := by
-  have heo : epochOk c .done ep n m = true := by simp [epochOk, he]
+    (he : m.epoch = r.epoch) :
+    step c r m = (if c.isTls13 then .abort .unexpected_message else .warn) := by
+  have heo : epochOk c r m = true := by simp [epochOk, he]
+  have hhs : m.kind.isHandshake = true := by
+    rcases hk with ⟨_, hkk⟩ | ⟨_, hkk⟩ <;> rw [hkk] <;> rfl
   unfold step
-  simp only [heo, if_true]
+  simp only [heo, hhs, hpart, hpend, hst, Bool.not_true, Bool.false_eq_true, if_false, if_true]
+  simp only [show (Part.whole == Part.head) = false from rfl, show (Part.whole == Part.tail) = false from rfl,
+    Option.isNone_none, if_true, Bool.false_eq_true, if_false]
   unfold stepK
   simp only [stepK0, v13Active]
   by_cases h13 : c.isTls13 = true
   · rcases hk with ⟨hr, hkk⟩ | ⟨hr, hkk⟩ <;> rw [hkk] <;>
-      simp [stepDone, MsgKind.isAlert, h13, hr, mustAlign, Out.accepted, firstHello]
+      simp [stepDone, renegAttempt, MsgKind.isAlert, h13, hr, mustAlign, Out.accepted, firstHello, PostOut.toOut]
   · have h13' : c.isTls13 = false := by simpa using h13
     rcases hk with ⟨hr, hkk⟩ | ⟨hr, hkk⟩ <;> rw [hkk] <;>
-      simp [stepDone, MsgKind.isAlert, h13', hr, mustAlign, Out.accepted, firstHello]
+      simp [stepDone, renegAttempt, MsgKind.isAlert, h13', hr, mustAlign, Out.accepted, firstHello, PostOut.toOut]
 
 /-- `_handshakeStart` on an open connection raises -/
 theorem handshakeStart_open_raises (c : Cfg) (ms : List Msg) (h : (run c (start c) ms).st = .done) :
     ∃ e, handshakeStart (run c (start c) ms) = .error e := by
   have hinv := inv_run c ms (start c) (inv_start c)
-  have := (hinv.atDone h).2
+  have := (hinv.atDone (by rw [h]; rfl)).2
   exact ⟨"Renegotiation disallowed for security reasons", by simp [handshakeStart, this]⟩
 
 /-- non-vacuity: a completed TLS 1.2 handshake, then ClientHello + data: one warning, the data is
     delivered, still `done`; and `_handshakeStart` refuses -/
 example :
     let r := run tls12Server (start tls12Server)
-      [⟨.client_hello, 0, false⟩, ⟨.client_key_exchange, 0, false⟩, ⟨.ccs, 0, false⟩, ⟨.finished, 1, false⟩,
-       ⟨.client_hello, 1, false⟩, ⟨.app_data, 1, false⟩]
+      [⟨.client_hello, 0, false, .whole⟩, ⟨.client_key_exchange, 0, false, .whole⟩, ⟨.ccs, 0, false, .whole⟩,
+       ⟨.finished, 1, false, .whole⟩, ⟨.client_hello, 1, false, .whole⟩, ⟨.app_data, 1, false, .whole⟩]
     r.st = .done ∧ r.warns = 1 ∧ r.delivered = 1 ∧ r.accAtDone = 4 ∧
     (match handshakeStart r with | .error _ => true | .ok _ => false) = true := by decide
 
